@@ -105,6 +105,8 @@ Definition regcomp (pat : bytes) : res (option prog) :=
   match fst r with
   | None => Ok None
   | Some t =>
+    if parse_bad pat || negb (match snd r with [] => true | _ => false end) then Ok None   (* if (re_bad || *pat) reject *)
+    else
     if ((0 <=? NINST) && (NINST <=? count t + 3))%Z then Ok None       (* if (n >= NINST) reject *)
     else
     let t' := fst (grpnum t 1) in
